@@ -11,16 +11,30 @@ Modelled code:
   SimulationManager._run_simulations_debug / _run_simulation_multiprocessing: programs run one after
       another on the same object (debug) or in worker processes, each task on its own pickled copy.
 
-An emission is represented by its identity `(id, start)`; rate, repairability, natural end date are
-immutable attributes that travel with the id (they are never written after generation), life-cycle
-fields live elsewhere (Model/Emission.lean) and are private to a program's copy.
+A store entry (`EmId`) is one pre-generated emission object: its identity (id, start, rate,
+repairability, natural end — never written after generation) plus `life`, an abstraction of all its
+mutable life-cycle fields (their actual dynamics are Model/Emission.lean).  The first half of the file
+(`drain` … `sortedByStart`) is the cursor loop and the identity-level interpreters; the second half
+adds infrastructure *objects* (`SrcO`, `Infra`: pending lists + the emissions the components hold),
+arbitrary program behaviours (`Beh`), `deepcopy`, and the object-level interpreters `runSeqO` /
+`runScheduleO` in which `copied` means "run on `deepcopy` of the object" and `shared` "in place".
 Core Lean only, executable.
 -/
 namespace LdarModel.Heap
 
+/-- a store entry: one pre-generated emission object.  `id`, `start`, `rate` (g/s × 1024),
+`repairable`, `nrd` (natural repair delay / duration) are its identity — written once by
+`Source._create_emission`, never afterwards; `life` stands for all its mutable life-cycle fields
+(status, days active, tag state, repair date, …) abstracted to one number, `0` = as generated.
+(The fields after `start` were added in the strengthening round; they default so that
+`{ id := i, start := s }` still denotes a pristine emission.) -/
 structure EmId where
   id : Nat
   start : Int
+  rate : Int := 0
+  repairable : Bool := true
+  nrd : Int := 0
+  life : Nat := 0
   deriving DecidableEq, Repr, Inhabited
 
 /-- one source of the shared infrastructure: pending list in pop order (head = next to pop) and the
@@ -102,5 +116,98 @@ def sortedByStart : List EmId → Bool
   | [] => true
   | [_] => true
   | a :: b :: rest => decide (a.start ≤ b.start) && sortedByStart (b :: rest)
+
+/-! ### emission objects with mutable life-cycle fields, program behaviours, copy vs in place
+
+The definitions above describe who is *handed* which emission.  What follows adds what the audit of
+C01 found missing: the emission objects themselves are mutable and sit in the infrastructure (in the
+pending lists until handed out, afterwards in the component's active / inactive lists), a program
+does arbitrary things to the emissions it holds, and `copied` / `shared` differ in whether those
+mutations (and the consumed lists) are visible to the next program. -/
+
+/-- identity view of a store entry (life-cycle fields erased) -/
+def ident (e : EmId) : EmId := { e with life := 0 }
+
+/-- "Theoretical End Date" of the record of a repairable emission (`calc_theory_date`); for a
+non-repairable one the column shows the expiry date (a life-cycle field, compared by C03) -/
+def EmId.theoEnd (e : EmId) : Option Int := if e.repairable then some (e.start + e.nrd) else none
+
+/-- what a program does, on day `d`, to an emission it holds at source number `tag` (tagging,
+recording, repairing, ageing, …): the new value of the life-cycle fields.  Arbitrary — theorems
+quantify over it. -/
+abbrev Beh := Int → Nat → EmId → Nat
+
+def touch (b : Beh) (day : Int) (tag : Nat) (e : EmId) : EmId := { e with life := b day tag e }
+
+/-- one source of an infrastructure *object*: which source it is, its pending list + cursor, and the
+emission objects already handed to the component (its `_active_emissions` + `_inactive_emissions`) -/
+structure SrcO where
+  tag : Nat := 0
+  src : Src
+  held : List EmId := []
+  deriving DecidableEq, Repr, Inhabited
+
+abbrev Infra := List SrcO
+
+/-- one simulated day at one source object: `activate_emissions` hands the started emissions to the
+component, then the program (deploy + daily update) mutates every emission the component holds -/
+def daySrcO (b : Beh) (day : Int) (s : SrcO) : List EmId × SrcO :=
+  let r := activateSrc day s.src
+  (r.1, { s with src := r.2, held := (s.held ++ r.1).map (touch b day s.tag) })
+
+/-- a program with behaviour `b` run for `k` days from `day` on an infrastructure object, in place:
+per source the emission objects *as they were handed out* (life-cycle fields as found in the pending
+list), and the infrastructure object it leaves behind -/
+def runProgramO (b : Beh) : Nat → Int → Infra → List (List EmId) × Infra
+  | 0, _, inf => (inf.map (fun _ => []), inf)
+  | k + 1, day, inf =>
+    let r := inf.map (daySrcO b day)
+    let rec' := runProgramO b k (day + 1) (r.map (·.2))
+    (List.zipWith (· ++ ·) (r.map (·.1)) rec'.1, rec'.2)
+
+/-- everything a program is confronted with on an infrastructure object: per source the emission
+objects its components already hold when it starts (as found), then the ones handed out (as found) -/
+def facedBy (b : Beh) (N : Nat) (inf : Infra) : List (List EmId) × Infra :=
+  let r := runProgramO b N 0 inf
+  (List.zipWith (· ++ ·) (inf.map (·.held)) r.1, r.2)
+
+/-- `copy.deepcopy` / pickling of one emission through `__reduce__` = rebuild from its `__dict__` -/
+def copyEm (e : EmId) : EmId :=
+  { id := e.id, start := e.start, rate := e.rate, repairable := e.repairable, nrd := e.nrd, life := e.life }
+
+/-- `copy.deepcopy(infrastructure)`: a new object graph with the same content -/
+def deepcopy (inf : Infra) : Infra :=
+  inf.map (fun s => { tag := s.tag,
+                      src := { pending := s.src.pending.map copyEm, next := s.src.next.map copyEm },
+                      held := s.held.map copyEm })
+
+/-- programs (number, behaviour) simulated one after another on one infrastructure object.
+`copied`: each runs on `deepcopy` of the object, the object itself is handed on as it was;
+`shared`: each runs on the object itself and hands on what it left behind -/
+def runSeqO (m : Mode) (N : Nat) : List (Nat × Beh) → Infra → List (Nat × List (List EmId))
+  | [], _ => []
+  | (p, b) :: ps, inf =>
+    match m with
+    | .copied => (p, (facedBy b N (deepcopy inf)).1) :: runSeqO m N ps inf
+    | .shared =>
+      let r := facedBy b N inf
+      (p, r.1) :: runSeqO m N ps r.2
+
+/-- a schedule: the programs partitioned over workers; every worker receives its own pickled copy of
+the loaded scenario and runs its programs sequentially in mode `m` -/
+def runScheduleO (m : Mode) (N : Nat) (workers : List (List (Nat × Beh))) (g : Infra) :
+    List (Nat × List (List EmId)) :=
+  (workers.map (fun ps => runSeqO m N ps (deepcopy g))).flatten
+
+/-- the scenario as loaded by `read_in_emissions`: nothing handed out yet -/
+def pristine (g : Infra) : Prop := ∀ s ∈ g, s.held = []
+
+instance (g : Infra) : Decidable (pristine g) := by unfold pristine; infer_instance
+
+/-- the source states after the first `n` days (days `0 .. n-1`) -/
+def srcAfter (n : Nat) (s : Src) : Src := (runSrc n 0 s).2
+
+/-- the emissions a source hands out on day `n` -/
+def handedOutOn (n : Nat) (s : Src) : List EmId := (activateSrc (n : Int) (srcAfter n s)).1
 
 end LdarModel.Heap
